@@ -795,7 +795,7 @@ func CombineLatestAll[T any]() func(Observable[Observable[T]]) Observable[[]T] {
 				}
 			}
 
-			subscribeInner := func() {
+			subscribeInner := func(ctx context.Context) {
 				// init
 				atomic.StoreInt32(&status, int32(len(observables)))
 
@@ -810,7 +810,7 @@ func CombineLatestAll[T any]() func(Observable[Observable[T]]) Observable[[]T] {
 
 					subscriptions.AddUnsubscribable(
 						observables[j].SubscribeWithContext(
-							subscriberCtx,
+							ctx, // the context delivered by the stream of observables, like MergeAll, ConcatAll and ZipAll
 							NewObserverWithContext(
 								func(ctx context.Context, v T) {
 									values[j].Store(&v)
@@ -844,7 +844,7 @@ func CombineLatestAll[T any]() func(Observable[Observable[T]]) Observable[[]T] {
 						},
 						func(ctx context.Context) {
 							if len(observables) > 0 {
-								subscribeInner()
+								subscribeInner(ctx)
 							} else {
 								atomic.StoreInt32(&status, 0)
 								destination.CompleteWithContext(ctx)
